@@ -302,6 +302,9 @@ def generate(name, expanded_src=None):
                         rsx._mark_lines(e.spec, "    ") + "{ unimplemented!() } " + rsx.MARK + "\n"
                 else:
                     woven = rsx.weave(text, spec=e.spec if e.spec.strip() else None, hints=e.hints)
+                    if e.opts.get('nodecreases'):
+                        # termination of the function's loops is NOT proved (marked line: erased by the erasure check)
+                        woven = "#[verifier::exec_allows_no_decreases_clause] " + rsx.MARK + "\n" + woven
                     # erasure check
                     got = rsx.erase_tokens(woven)
                     want_toks = rsx.source_tokens(raw, cfg, rename=rename, ret_name=ret, vis=vis, revloops=e.opts.get('revloops'), lebytes=bool(e.opts.get('lebytes')), destruct=bool(e.opts.get('destruct')), localconst=bool(e.opts.get('localconst')), nestedret=e.opts.get('nestedret'))
@@ -325,7 +328,11 @@ def generate(name, expanded_src=None):
             parts = [p.strip() for p in rest.split('|')]
             try:
                 src = read_src(parts[0])
-                s, t = rsx.find_item(src, parts[1], parts[2])
+                nth_item = 0
+                for po in parts[3:]:
+                    if po.startswith('nth='):
+                        nth_item = int(po[4:])
+                s, t = rsx.find_item(src, parts[1], parts[2], nth=nth_item)
                 cfg = get_cfg(default_cfg)
                 txt = rsx.resolve_cfg(src[s:t], cfg)
                 mder = re.search(r'#\[derive\(([^)]*)\)\]', src[s:t])
